@@ -6,8 +6,10 @@
 // that is already stored has no further effect.
 //
 // Engine E1q: the REAL persistedretry.manager (its own worker / poller
-// goroutines, channels, ticker) over the REAL writeback.Store (thorough: also
-// tagreplication.Store) on a sqlite file opened through localdb.New, inside a
+// goroutines, channels, ticker) over the REAL writeback.Store and the REAL
+// tagreplication.Store (opened, at every start, through its real constructor
+// with the REAL Remotes validator of a remotes configuration: remotes.go) on a
+// sqlite file opened through localdb.New, inside a
 // testing/synctest bubble. The seams are the two interfaces the manager is
 // built from: a harness Store wrapper (every call of a manager goroutine parks
 // = one pending action; crash switch) and a harness Executor (Exec parks, the
@@ -63,9 +65,9 @@ type config struct {
 	maxActions    int           // Add / Exec outcome / advance / restart
 	maxRestarts   int
 	maxAdvances   int
-	parkAdd       bool // AddPending/AddFailed park too (else they run in the step of the Add action)
-	parkRet       bool // every parked Store call is TWO pending actions: its effect on the store, and its return to the manager goroutine
-	drain         bool // after the last budgeted action the still parked Store calls are released one by one in every order (else all at once)
+	parkAdd       bool   // AddPending/AddFailed park too (else they run in the step of the Add action)
+	parkRet       bool   // every parked Store call is TWO pending actions: its effect on the store, and its return to the manager goroutine
+	drain         bool   // after the last budgeted action the still parked Store calls are released one by one in every order (else all at once)
 	scen          string // "" | "q" | "t": the first choice of an execution is a start-up scenario (remotes configuration x task identities) of that scope (remotes.go); kind tr only
 	chg           bool   // a restart may also come up with a remotes configuration that lacks one (address, pattern) entry
 	cap           int    // wall-clock cap of the exploration in seconds (not part of the name)
@@ -1227,6 +1229,11 @@ func configs(thorough bool) []config {
 			// still parked after the last action are drained in every order
 			{kind: "wb", inBuf: 0, reBuf: 0, retryInterval: s5, maxActions: 4, maxRestarts: 1, maxAdvances: 2, parkRet: true, drain: true, cap: 40},
 			{kind: "wb", inBuf: 1, reBuf: 1, retryInterval: s5, maxActions: 4, maxRestarts: 1, maxAdvances: 2, parkRet: true, drain: true, cap: 20},
+			// start-up path of the real tagreplication.Store with the real Remotes: the first
+			// choice is a scenario (remotes configuration x address order x identities of
+			// t1/t2, scope "q" of remotes.go); a restart comes up with the same configuration
+			// or with one that lacks one (address, pattern) entry
+			{kind: "tr", inBuf: 0, reBuf: 0, retryInterval: s5, maxActions: 3, maxRestarts: 1, maxAdvances: 1, scen: "q", chg: true, cap: 30},
 		}
 	}
 	return []config{
@@ -1256,6 +1263,12 @@ func configs(thorough bool) []config {
 		{kind: "wb", inBuf: 0, reBuf: 0, retryInterval: s5, t2Delay: 15 * time.Second, maxActions: 4, maxRestarts: 1, maxAdvances: 3, parkRet: true, drain: true, cap: 40},
 		{kind: "wb", inBuf: 0, reBuf: 0, retryInterval: s5, maxActions: 3, maxRestarts: 1, maxAdvances: 2, parkAdd: true, parkRet: true, drain: true, cap: 40},
 		{kind: "wb", inBuf: 0, reBuf: 0, retryInterval: s5, maxActions: 5, maxRestarts: 1, maxAdvances: 2, parkRet: true, drain: true, cap: 60},
+		// start-up scenarios (remotes.go): the wider scope "t" (E also with a single pattern,
+		// ordered pairs of tasks) with configuration changes at 3 actions; scope "q" with a
+		// fixed configuration one action deeper; scope "q" with buffered queues
+		{kind: "tr", inBuf: 0, reBuf: 0, retryInterval: s5, maxActions: 3, maxRestarts: 1, maxAdvances: 1, scen: "t", chg: true, cap: 110},
+		{kind: "tr", inBuf: 0, reBuf: 0, retryInterval: s5, maxActions: 4, maxRestarts: 1, maxAdvances: 1, scen: "q", cap: 90},
+		{kind: "tr", inBuf: 1, reBuf: 1, retryInterval: s5, maxActions: 3, maxRestarts: 1, maxAdvances: 1, scen: "q", chg: true, cap: 45},
 	}
 }
 
@@ -1347,7 +1360,7 @@ func main() {
 		vrt.WorkerMain(hs)
 
 		run := evid.New("C30", "exploration")
-		run.Rule = "E1q: every order of the pending actions of the real persistedretry.manager goroutines (each Store call of a worker / the retry poller / manager start-up parks; each Exec parks and is released with success or failure) and of the harness actions Add(t1) x2, Add(t2), advance past the next poll tick, restart (crash switch + new manager on the same sqlite file), up to the action / restart budget; then a closing phase (executor succeeds, time advances tick by tick for up to 12 poll rounds). Configurations marked 'pr dr': every Store call is TWO pending actions, its effect on the sqlite table and ('.ret') the return of its result to the manager goroutine, so each in-memory section of the poller / a worker / start-up between two Store effects is a step of its own and any number of Store effects of the other goroutines can land between a read (GetFailed, GetPending) or write (MarkFailed, MarkPending, Remove) and what its caller does next; after the last budgeted action the still parked effects / returns are released one at a time in every order. distinct = distinct outcome classes (which crash points / overflow / duplicate / retry paths / effect-inside-window collisions an execution took) per configuration."
+		run.Rule = "E1q: every order of the pending actions of the real persistedretry.manager goroutines (each Store call of a worker / the retry poller / manager start-up parks; each Exec parks and is released with success or failure) and of the harness actions Add(t1) x2, Add(t2), advance past the next poll tick, restart (crash switch + new manager on the same sqlite file), up to the action / restart budget; then a closing phase (executor succeeds, time advances tick by tick for up to 12 poll rounds). Every restart runs the real start-up path: localdb.New (migrations) on the same file, then the real store constructor — writeback.NewStore, or tagreplication.NewStore with the REAL Remotes validator built by RemotesConfig.Build from the process's remotes configuration (its deleteInvalidTasks runs inside the restart step), then NewManager. Configurations marked 'scn-q'/'scn-t': the first choice of an execution is a start-up scenario = remotes configuration (address D with 1..3 patterns incl. overlapping ones, optional second address E, both address orders) x identities (tag, address) of t1 and t2 among all tasks the configuration declares valid (tag matching the 1st / 2nd / 3rd / several patterns of its address, valid at one or both addresses, same tag to two destinations); restart is also offered when a task is merely stored; with 'chg' a restart also enumerates every configuration that lacks one (address, pattern) entry — only a task the new configuration no longer declares valid may then leave the store without a successful Exec. Configurations marked 'pr dr': every Store call is TWO pending actions, its effect on the sqlite table and ('.ret') the return of its result to the manager goroutine, so each in-memory section of the poller / a worker / start-up between two Store effects is a step of its own and any number of Store effects of the other goroutines can land between a read (GetFailed, GetPending) or write (MarkFailed, MarkPending, Remove) and what its caller does next; after the last budgeted action the still parked effects / returns are released one at a time in every order. distinct = distinct outcome classes (which crash points / overflow / duplicate / retry paths / effect-inside-window collisions an execution took) per configuration."
 		run.Assume("single clock: sqlite CURRENT_TIMESTAMP (wall clock) is replaced by the bubble's virtual time for created_at / last_attempt (the Store seam re-stamps the row right after the real statement): DB host clock == process clock")
 		run.Assume("a crash is modelled at Store-call boundaries: the pending call and every later Store call of the old manager fail without effect; a pending Exec of the old manager did not succeed; sqlite statements are atomic")
 		run.Assume("the workers' throttle sleep (MaxTaskThroughput) elapses between two steps (3ms of virtual time after every step)")
@@ -1355,7 +1368,8 @@ func main() {
 		run.Assume("small scope: tasks t1,t2 (t2 only after t1: symmetric), 1 incoming + 1 retry worker, PollRetriesInterval 10s, RetryInterval 5s (one thorough configuration 15s), advance = to the next poll tick + 1s")
 		run.Assume("alphabet restrictions: the second Add(t1) is offered only while t1 is stored (the duplicate case); advance is not offered while a GetFailed of the poller is still parked; restart is offered when it interrupts something (a parked Store call, a running Exec, a queued task); the exploration ends with the last budgeted action (calls still parked then are released at the start of the closing phase)")
 		run.Assume("two-seam configurations (pr dr): <=4 actions and <=1 restart (thorough: one time-capped 5-action layer; 3 actions where Add's own Store call has both seams too); a crash between effect and return keeps the effect and the caller never sees the result (an Add interrupted that way has no caller left and is not judged); Execs still running after the last budgeted action are answered (success) at the start of the closing phase; two in-memory sections of different manager goroutines with no Store call between them are not interleaved at statement level")
-		run.Assume("tagreplication.NewStore runs with a validator that accepts every remote (its deletion of tasks of removed remotes is not part of the property)")
+		run.Assume("start-up scenarios (configurations 'scn-q' / 'scn-t', tagreplication.Store): addresses D (pattern lists [a/.*], [a/.* b/.*], [a/.* b/.* c/.*], [a/x.* a/.*], [a/.* a/x.*], [b/.* a/x.* a/.*]) and optionally E ([b/.* a/.*]; scope t also [a/.*]) in both address orders (RemotesConfig.Build ranges over a map: the harness builds the real Remotes per address with the real Build and concatenates them in the scenario's order); tags a/x:1, a/y:1 (only with a/x.* configured), b/x:1, c/x:1; t1, t2 = two distinct tasks (tag, address) the configuration declares valid (scope q: unordered pairs, scope t: ordered pairs); an Add is offered only for a task the running process's configuration declares valid (kraken creates tasks from Remotes.Match); 'chg': a restarted process may lack exactly one (address, pattern) entry of its predecessor's configuration (never all of them); a stored task that the new configuration no longer declares valid MAY be deleted by the start-up (documented exception; not required), every other stored task must survive the restart")
+		run.Assume("tr configurations without scenario choice: one remote 'dest' with pattern .*, tasks (t1, dest), (t2, dest); writeback.NewStore has no start-up work (it is called on every restart all the same)")
 
 		if p := run.ReplayPath(); p != "" {
 			replay(run, p)
@@ -1394,8 +1408,16 @@ func main() {
 		// (the last four: a failing write landed between the effect and the return of the
 		// poller's read / a read landed inside a failing write's window / a crash hit a
 		// call between effect and return — the collisions the two-seam part exists for)
+		// (from "restartWithStored" on: the start-up scenarios — a restart with an unchanged remotes
+		// configuration found a stored task that is valid through the 2nd / 3rd / several patterns of its
+		// address, whose tag is also valid at an address configured earlier, two stored tasks with one tag
+		// and two destinations; a restart with a changed configuration found a still valid task, and one
+		// deleted an invalidated task)
 		for _, need := range []string{"crashBetweenExecOkAndRemove", "crash@Exec", "dupAdd", "execFail", "crash@MarkFailed",
-			"failWriteInsideEmptyGetFailedWindow", "failWriteInsideGetFailedWindow", "getFailedInsideFailWriteWindow", "crash@MarkFailed.ret"} {
+			"failWriteInsideEmptyGetFailedWindow", "failWriteInsideGetFailedWindow", "getFailedInsideFailWriteWindow", "crash@MarkFailed.ret",
+			"restartWithStored:firstPatternOnly", "restartWithStored:secondPatternOnly", "restartWithStored:thirdPatternOnly", "restartWithStored:severalPatterns",
+			"restartWithStored:tagValidAtEarlierAddressToo", "restartWithStored:tagValidAtLaterAddressToo", "restartWithStored:sameTagTwoDestinations",
+			"restartChangedCfgWithStored:secondPatternOnly", "restartChangedCfgWithStored:invalid", "deletedAtStartAsInvalid"} {
 			if agg[need] == 0 && run.NViolations() == 0 && os.Getenv("C30_CFG") == "" {
 				run.Fatal(fmt.Errorf("vacuous: no execution with %s", need))
 			}
